@@ -211,14 +211,15 @@ type fctx struct {
 }
 
 type tr2 struct {
-	g     *v2
-	info  *types.Info
-	pkg   *types.Package
-	mod   string
-	tmp   int
-	fresh map[types.Object]bool
-	sig   *types.Signature
-	errs  []string
+	g        *v2
+	info     *types.Info
+	pkg      *types.Package
+	mod      string
+	tmp      int
+	fresh    map[types.Object]bool
+	sig      *types.Signature
+	errs     []string
+	stubOnly bool
 	// receiver of a state-passing method (written through): every return also returns it
 	mutRecv types.Object
 }
@@ -572,6 +573,21 @@ func runV2(ci *chainImporter, repo, outPath, manifestPath string) int {
 			obj := t.info.Defs[fd.Name].(*types.Func)
 			fi := g.fns[obj]
 			if len(t.errs) > nerr {
+				// refused: report loudly, then try a typed stub so that the damage stays local
+				refused := append([]string{}, t.errs[nerr:]...)
+				t.errs = t.errs[:nerr]
+				t.stubOnly = true
+				stub := t.function(fd)
+				t.stubOnly = false
+				if len(t.errs) > nerr {
+					t.errs = append(t.errs[:nerr], refused...) // even the signature is outside the subset: fatal
+					continue
+				}
+				for _, e := range refused {
+					fmt.Fprintln(os.Stderr, "translator(v2): REFUSED (stub emitted):", e)
+				}
+				fmt.Fprintf(buf, "(* %s:%d-%d  REFUSED by the translator: %s *)\n%s\n\n", relf, pos.Line, end.Line, strings.ReplaceAll(strings.Join(refused, " | "), "*)", "* )"), stub)
+				items = append(items, genItem{Kind: "func2-refused", Pkg: ps.tg.Pkg, Name: fi.name, Pos: fmt.Sprintf("%s:%d-%d", relf, pos.Line, end.Line), Val: strings.Join(refused, " | ")})
 				continue
 			}
 			fmt.Fprintf(buf, "(* %s:%d-%d  sha256(src)=%x *)\n%s\n\n", relf, pos.Line, end.Line, h[:8], def)
@@ -754,6 +770,12 @@ func (t *tr2) function(fd *ast.FuncDecl) string {
 			}
 			return true
 		})
+	}
+	if t.stubOnly {
+		// the body left the subset: emit a stub with the right type that always panics, so that the
+		// rest of Gen2.v still compiles and exactly the bridge lemmas about this function (and about
+		// its translated callers) stop checking
+		return fmt.Sprintf("Definition %s %s : gres %s :=\n GPanic.", fi.name, strings.Join(params, " "), rty)
 	}
 	body := t.stmts(fd.Body.List, c, func() string { return end })
 	if strings.Contains(body, noRest) {
